@@ -88,6 +88,7 @@ func C19(c *core.Ctx) {
 	c19Files(c)
 	c19Coherence(c)
 	c19SchemaEnums(c)
+	c11CurrencyEnum(c, "C19-R7")
 	shareDefinitionsImmutable(c, "C19-R6", "the registered definitions are not rewritten at run time, so what the library enforces stays what was published (shared with C15-R2/R4)")
 	c19SelfValidation(c)
 	_ = p
